@@ -66,6 +66,7 @@ def explore(case):
   try:
     fresh_root = [None]
     saved_depth = [depth]
+    kept_diags = []
 
     def rec(hist, state):
       if len(hist) >= saved_depth[0]:
@@ -85,6 +86,10 @@ def explore(case):
           readable_equal(state, snap, 'after an aborted round', nc)
         new, diag = alg.apply(state, cohort)
         readable_equal(state, snap, 'after apply', nc)
+        require(sorted(map(repr, diag)) == sorted({repr(c[0]) for c in cohort}), 'the diagnostics do not have exactly one entry per '
+                'participating client (entries of other rounds / other objects leaked in)', sorted({repr(c[0]) for c in cohort}),
+                sorted(map(repr, diag)), case=nc)
+        kept_diags.append((h2, diag, algos.tree_np(diag)))
         serialization.save_state(state, path)
         new_snap, diag_snap = algos.tree_np(new), algos.tree_np(diag)
         # (2) same arguments again
@@ -130,6 +135,11 @@ def explore(case):
     depth2 = min(depth, 2)
     saved_depth[0] = depth2
     rec([], root2)
+    # diagnostics handed out earlier are still what they were (looked at again after every later round)
+    for h_, d_, snap_ in kept_diags[:200]:
+      require(sorted(map(repr, d_)) == sorted(map(repr, snap_)) and algos.trees_equal(d_, snap_, 0, 0),
+              'the diagnostics returned for history %r changed after later rounds' % (h_,), sorted(map(repr, snap_)), sorted(map(repr, d_)),
+              case=dict(case, history=h_))
   finally:
     shutil.rmtree(tmp, ignore_errors=True)
   return {'evals': stats['transitions'] * 3 + stats['fresh'], 'states': stats['states'], 'transitions': stats['transitions'],
@@ -292,6 +302,9 @@ def plan(ctx):
                       'extensions, which is exactly the purity under test)', 'float comparisons at 1e-6']
   ctx.pmap('explore', [{'system': s, 'depth': depth, 'seed': ctx.seed, 'fresh_depth': 2 if th else 1} for s in SYSTEMS],
            chunk=1)
+  long_path = ['AB', 'A', 'B', 'BA', 'AC', 'A2', 'AB', 'AB', 'A', 'B', 'AC', 'BA']
+  ctx.pmap('explore', [{'system': sy, 'depth': len(long_path), 'history': long_path, 'seed': ctx.seed, 'fresh_depth': 0}
+                       for sy in ('fed_avg', 'mime', 'agnostic', 'hyp_cluster', 'apfl')], chunk=1)
   ctx.pmap('aggregators', [{'agg': a, 'rounds': 3, 'trees': ['vec', 'mat_scalar', 'nested'] if th else ['vec', 'mat_scalar'],
                             'seed': ctx.seed}
                            for a in ('mean', 'uniform', 'uniform_arith', 'rotated', 'drive', 'terngrad')], chunk=1)
